@@ -105,7 +105,7 @@ PROPS = {
     ),
     "C04": dict(
         level="proof", modules=CODEC_MODS + ["NasVerif.Props.C04"], parts=["Codec"],
-        streams=[("spec", 25, 300, "spec"), ("codec-dec", 3000, 30000), ("codec-enc", 400, 4000, "model", "C02")], oracle="C01",
+        streams=[("spec", 25, 300, "spec"), ("codec-dec", 3000, 30000), ("codec-enc", 400, 4000, "model", "C02"), ("dispatch", 1, 1, "model", "C05")], oracle="C01",
         trusted_base=TB_CODEC + ["Spec/Tables.lean: the 45 message tables in TS 24.501 vocabulary, derived from the generated code at the pinned commit and reviewed against TS 24.501 V15.7 §8.2/§8.3",
                                   "Spec/Msg.lean: renderer and table-driven decoder written from TS 24.007 §11.2 framing rules"],
         rule="per message: well-formed messages (spec renderer vs real encoder), canonical + shuffled/duplicated/unknown/boundary-length/truncated inputs (spec table-driven decoder vs real decoder), plus the table-driven model correspondence stream; non-trivial = accepted",
